@@ -48,6 +48,35 @@ def _listcomp_elt(fn, depth=2):
     return node
 
 
+def _half_step(fn):
+    """_perturb_models: half_steps = [<expr> for step_size in step_sizes]"""
+    import ast
+    node = T.assigns(fn, "half_steps")[0].value
+    if not (isinstance(node, ast.ListComp) and len(node.generators) == 1 and T._dotted(node.generators[0].target) == "step_size"
+            and T._dotted(node.generators[0].iter) == "step_sizes"):
+        raise T.TranslationError("half_steps is not `[... for step_size in step_sizes]`")
+    return node.elt
+
+
+def _unit_limit(fn, which):
+    """_perturb_models: limits = [(prior.value_for(<lower>), prior.value_for(<upper>)) for centre, prior, half_step in
+    zip(list_, self.perturb_model.priors_ordered_by_id, half_steps)]; the wiring of the zip is pinned here."""
+    import ast
+    node = T.assigns(fn, "limits")[0].value
+    if not (isinstance(node, ast.ListComp) and len(node.generators) == 1 and isinstance(node.elt, ast.Tuple) and len(node.elt.elts) == 2):
+        raise T.TranslationError("limits is not a comprehension of pairs")
+    gen = node.generators[0]
+    tgt = [T._dotted(e) for e in gen.target.elts] if isinstance(gen.target, ast.Tuple) else None
+    it = gen.iter
+    if tgt != ["centre", "prior", "half_step"] or not (isinstance(it, ast.Call) and T._dotted(it.func) == "zip" and
+            [T._dotted(a) for a in it.args] == ["list_", "self.perturb_model.priors_ordered_by_id", "half_steps"]):
+        raise T.TranslationError("limits no longer zips (list_, priors_ordered_by_id, half_steps) into (centre, prior, half_step)")
+    call = node.elt.elts[which]
+    if not (isinstance(call, ast.Call) and T._dotted(call.func) == "prior.value_for" and len(call.args) == 1 and not call.keywords):
+        raise T.TranslationError("limit is not prior.value_for(<unit>)")
+    return call.args[0]
+
+
 SPECS = [
     T.Spec("gs_step_size", GS, "GridSearch.step_size", lambda f: T.returns(f)[-1], [("number_of_steps", "int")], "float"),
     T.Spec("ml_count", GS, "make_lists", lambda f: _listcomp_in_return(f, "range"), [("step_size", "float")], "int",
@@ -70,6 +99,11 @@ SPECS = [
     T.Spec("gsr_centre", RES, "GridSearchResult.centres_lists", lambda f: _listcomp_elt(f),
            [("upper", "float"), ("lower", "float")], "float"),
     T.Spec("sens_step_size", SENS, "Sensitivity.step_size", lambda f: T.returns(f)[-1], [("number_of_steps", "int")], "float"),
+    T.Spec("sens_half_step", SENS, "Sensitivity._perturb_models", _half_step, [("limit_scale", "float"), ("step_size", "float")], "float"),
+    T.Spec("sens_unit_lower", SENS, "Sensitivity._perturb_models", lambda f: _unit_limit(f, 0),
+           [("centre", "float"), ("half_step", "float")], "float"),
+    T.Spec("sens_unit_upper", SENS, "Sensitivity._perturb_models", lambda f: _unit_limit(f, 1),
+           [("centre", "float"), ("half_step", "float")], "float"),
 ]
 
 
@@ -107,6 +141,30 @@ def prior_range(rng):
     return lo, lo + w
 
 
+ATTRS = ["centre", "normalization", "sigma"]
+KINDS_EXTRA = ["const", "const", "const", "gauss", "loguniform", "shared"]
+# class labels (computed from the case alone) of the recorded genuine defects
+CLASS_SENS_ORDER = "sens-prior-id-order!=path-order"
+CLASS_SENS_CENTRES = "sens-perturbed-centres-with-limits"
+
+
+def gen_extras(rng, names):
+    """non-grid content of each component: constants, Gaussian / LogUniform priors, one prior shared by several
+    components, and `alias:<x>` = the prior object of component x's centre on a second path"""
+    extras = {}
+    for nm in names:
+        e = {}
+        for attr in ATTRS[1:]:
+            kind = rng.choice(KINDS_EXTRA)
+            if rng.random() < 0.12 and len(names) > 1:
+                kind = "alias:" + rng.choice([x for x in names if x != nm])
+            if kind != "const":
+                e[attr] = kind
+        if e:
+            extras[nm] = e
+    return extras
+
+
 def gen_cases(ctx):
     rng = ctx.rng
     thorough = ctx.tier == "thorough"
@@ -136,6 +194,10 @@ def gen_cases(ctx):
             lo, hi = prior_range(rng)
             priors.append([lo.hex(), hi.hex()])
         cases.append({"kind": "cells", "n": n, "priors": priors})
+    # grid priors without definite limits must be refused
+    cases.append({"kind": "infinite", "n": 2, "prior": "gauss", "lo": "-inf", "hi": "inf"})
+    cases.append({"kind": "infinite", "n": rng.randint(1, 6), "prior": "gauss", "lo": "-inf", "hi": float(rng.randint(1, 9)).hex()})
+    cases.append({"kind": "infinite", "n": rng.randint(1, 6), "prior": "uniform", "lo": float(rng.randint(-9, 0)).hex(), "hi": "inf"})
     # model mappers and real fits with permuted completion order
     names = ["alpha", "beta", "gamma", "delta", "eps"]
     for k in range(16 if not thorough else 60):
@@ -148,11 +210,19 @@ def gen_cases(ctx):
         grid = rng.sample([p[0] for p in pri], d)
         cap = {1: 12, 2: 5, 3: 3}[d]
         n = rng.randint(1, cap)
-        cases.append({"kind": "mappers", "n": n, "priors": pri, "grid": grid})
+        extras = gen_extras(rng, [p[0] for p in pri]) if rng.random() < 0.7 else {}
+        cases.append({"kind": "mappers", "n": n, "priors": pri, "grid": grid, "extras": extras})
         total = n ** d
         order = list(range(total))
         rng.shuffle(order)
-        cases.append({"kind": "fit", "n": n, "priors": pri, "grid": grid, "order": order})
+        cases.append({"kind": "fit", "n": n, "priors": pri, "grid": grid, "order": order, "extras": extras,
+                      "entry": "fit" if rng.random() < 0.75 else "_fit", "interval": rng.choice([1, 1, 2, 3, 100])})
+    if thorough:
+        # the real process pool (number_of_cores > 1): completion order is whatever the OS makes it
+        for n, grid in ((3, ["beta", "alpha"]), (5, ["gamma"])):
+            pri = [[nm, float(i).hex(), float(i + 2 + i).hex()] for i, nm in enumerate(["alpha", "beta", "gamma"])]
+            cases.append({"kind": "fit", "n": n, "priors": pri, "grid": grid, "order": list(range(n ** len(grid))), "extras": {},
+                          "entry": "fit", "cores": 3, "interval": 2})
     # result accessors
     for _ in range(40 if not thorough else 200):
         d = rng.choice([1, 2, 3, 4])
@@ -162,16 +232,24 @@ def gen_cases(ctx):
         import itertools
         lower = [[step * v for v in idx] for idx in itertools.product(range(n), repeat=d)]
         cases.append({"kind": "result", "n": n, "d": d, "lower": [[x.hex() for x in r] for r in lower]})
-    # builder: shuffled arrival orders incl. partial arrivals and re-delivery
+    # builder: shuffled arrival orders incl. partial arrivals and re-delivery (same job number, distinct token)
     for _ in range(60 if not thorough else 300):
         total = rng.randint(1, 30)
         arr = list(range(total))
         rng.shuffle(arr)
         if rng.random() < 0.4:
             arr = arr[: rng.randint(0, total)]
-        arrivals = [[k, 1000 + k] for k in arr]
+        if arr and rng.random() < 0.5:
+            for _ in range(rng.randint(1, 4)):
+                arr.insert(rng.randint(0, len(arr)), rng.choice(arr))
+        seen = {}
+        arrivals = []
+        for k in arr:
+            seen[k] = seen.get(k, 0) + 1
+            arrivals.append([k, 1000 * seen[k] + k])
         cases.append({"kind": "builder", "total": total, "arrivals": arrivals})
     # sensitivity
+    scales = [1, 1, 1.0, 0.5, 2, 2.0, 3, 0.25, 4.0, 1.5]
     for _ in range(30 if not thorough else 150):
         d = rng.choice([1, 2, 2, 3])
         cap = {1: 150, 2: 14, 3: 6}[d]
@@ -181,11 +259,14 @@ def gen_cases(ctx):
         else:
             ns_ = [rng.randint(1, cap)] * d
         cases.append({"kind": "sens_lists", "ns": ns_, "as_tuple": as_tuple})
+        ls = rng.choice(scales) if rng.random() < 0.8 else round(rng.uniform(0.1, 5.0), rng.randint(1, 6))
+        cases.append({"kind": "sens_cells", "ns": ns_, "as_tuple": as_tuple, "limit_scale": ls if isinstance(ls, int) else ls.hex()})
         arr = list(range(rng.randint(1, 25)))
         rng.shuffle(arr)
         cases.append({"kind": "sens_sorted", "arrivals": arr})
-    # real Sensitivity.run() with a permuted completion order
-    for _ in range(8 if not thorough else 40):
+    # real Sensitivity.run() with a permuted completion order; the perturb priors are created in a random
+    # order, so prior id order (the order of the grid dimensions) differs from attribute (path) order
+    for i in range(10 if not thorough else 40):
         d = rng.choice([1, 2, 2, 3])
         cap = {1: 8, 2: 4, 3: 3}[d]
         as_tuple = rng.random() < 0.7
@@ -196,19 +277,310 @@ def gen_cases(ctx):
         order = list(range(total))
         rng.shuffle(order)
         pri = []
-        for _ in range(d):
+        for nm in rng.sample(ATTRS, d):
             lo = float(rng.randint(-4, 4))
-            pri.append([lo.hex(), (lo + rng.choice([1.0, 2.0, 4.0, 8.0])).hex()])
-        cases.append({"kind": "sens_run", "ns": ns_, "as_tuple": as_tuple, "order": order, "priors": pri})
+            pri.append([nm, lo.hex(), (lo + rng.choice([1.0, 2.0, 4.0, 8.0])).hex()])
+        ls = rng.choice([1, 1, 1, 2, 0.5, 3.0])
+        cases.append({"kind": "sens_run", "ns": ns_, "as_tuple": as_tuple, "order": order, "priors": pri,
+                      "weights": [[nm, (2.0 ** (-8 * j)).hex()] for j, nm in enumerate(ATTRS)],
+                      "limit_scale": ls if isinstance(ls, int) else ls.hex(),
+                      "cores": 2 if (thorough and i % 20 == 7) else 1})
     return cases
 
 
-def close(a, b):
-    return abs(a - b) <= 1e-9 * max(1.0, abs(a), abs(b))
+def ulp(x):
+    import math
+    return math.ulp(x)
+
+
+def close(a, b, width=None):
+    """equality up to floating-point rounding: a few ulps of the operands plus 1e-9 of the CELL width (never
+    of the magnitude of the prior limits, which may dwarf the cell)"""
+    if width is None:
+        return abs(a - b) <= 1e-9 * max(1.0, abs(a), abs(b))
+    return abs(a - b) <= 1e-9 * abs(width) + 8 * ulp(max(abs(a), abs(b), abs(width)))
+
+
+def digits_of(k, ns):
+    out = []
+    for n in reversed(ns):
+        out.append(k % n)
+        k //= n
+    return list(reversed(out))
+
+
+def sens_classes(c):
+    """labels of the recorded sensitivity defects, computed from the case alone"""
+    created = [p[0] for p in c["priors"]]
+    out = []
+    if created != [a for a in ATTRS if a in created]:
+        out.append(CLASS_SENS_ORDER)
+    return out
 
 
 def oracle(c, r):
-    """Direct statement of C16 on the implementation's outputs. Returns None or a message."""
+    fails = oracle_all(c, r)
+    return fails[0][0] if fails else None
+
+
+def oracle_all(c, r):
+    """Direct statement of C16 on the implementation's outputs: list of (message, class labels)."""
+    k = c["kind"]
+    if k == "fit":
+        return oracle_fit(c, r)
+    if k == "sens_run":
+        return oracle_sens_run(c, r)
+    msg = oracle_simple(c, r)
+    return [(msg, [])] if msg else []
+
+
+def oracle_fit(c, r):
+    n, d = c["n"], len(c["grid"])
+    tot = n ** d
+    if r["shape"] != [n] * d:
+        return [("shape %s expected %s" % (r["shape"], [n] * d), [])]
+    if r["no_steps"] != tot or len(r["samples"]) != tot:
+        return [("result has %d cells" % r["no_steps"], [])]
+    dims = r["sorted_names"]           # the library's order of the grid dimensions (sort_priors_alphabetically)
+    aliased = any(v.startswith("alias:") for e in c.get("extras", {}).values() for v in e.values())
+    if sorted(dims) != sorted(c["grid"]) or (not aliased and dims != sorted(c["grid"])):
+        return [("grid dimensions %s are not the grid priors %s sorted by path" % (dims, sorted(c["grid"])), [])]
+    pr = {x: (unhex(a), unhex(b)) for x, a, b in c["priors"]}
+    alpha = sorted(c["grid"])          # the analysis weights the parameters in this (fixed) order
+    exp_cell, exp_ll = [], []
+    for idx in range(tot):
+        dg = dict(zip(dims, digits_of(idx, [n] * d)))
+        cell = {}
+        for nm in dims:
+            lo, hi = pr[nm]
+            cell[nm] = (lo + dg[nm] / n * (hi - lo), lo + (dg[nm] + 1) / n * (hi - lo), (hi - lo) / n)
+        exp_cell.append(cell)
+        exp_ll.append(-sum(((dg[nm] + 0.5) / n) / (n + 1) ** j for j, nm in enumerate(alpha)))
+    fails = []
+
+    def bad(msg):
+        fails.append((msg, []))
+
+    def cell_is(got, idx, what):
+        for nm in dims:
+            lo_, hi_, w = exp_cell[idx][nm]
+            if not (close(unhex(got[nm][0]), lo_, w) and close(unhex(got[nm][1]), hi_, w)):
+                bad("%s %d is not cell %d in row-major order (prior %s is [%r, %r], cell is [%r, %r]; completion order %s)"
+                    % (what, idx, idx, nm, unhex(got[nm][0]), unhex(got[nm][1]), lo_, hi_, c["order"]))
+                return False
+        return True
+
+    for idx in range(tot):
+        if not cell_is(r["samples"][idx], idx, "samples entry"):
+            break
+    # every per-cell list: entry k carries the likelihood / evidence / instance of cell k
+    for key, off, scale in (("log_likelihoods", 0.0, 1.0), ("native_flat", 0.0, 1.0), ("log_evidences", -100.0, 1.0),
+                            ("fom_evidence", -101.0, 1.0), ("builder_results", 0.0, 1.0)):
+        vals = r[key]
+        if len(vals) != tot:
+            bad("%s has %d entries" % (key, len(vals)))
+            continue
+        for idx in range(tot):
+            if vals[idx] is None or abs(unhex(vals[idx]) - (exp_ll[idx] + off)) > 1e-9:
+                bad("%s[%d] = %r is not the value of cell %d (%r)" % (key, idx, vals[idx] and unhex(vals[idx]), idx, exp_ll[idx] + off))
+                break
+    if r["native_shape"] != [n] * d:
+        bad("log_likelihoods().native has shape %s" % r["native_shape"])
+    for nm in dims:
+        vals = r["attribute_grid"][nm]
+        for idx in range(tot):
+            lo_, hi_, w = exp_cell[idx][nm]
+            if not close(unhex(vals[idx]), (lo_ + hi_) / 2, w):
+                bad("attribute_grid(%s.centre)[%d] = %r is not inside cell %d" % (nm, idx, unhex(vals[idx]), idx))
+                break
+    if r["best"] != [0]:
+        bad("best_samples is entry %s, the best likelihood is in cell 0" % r["best"])
+    for idx in range(tot):
+        if r["builder_paths"][idx] is None or not cell_is(r["builder_paths"][idx], idx, "ResultBuilder.results paths entry"):
+            if r["builder_paths"][idx] is None:
+                bad("ResultBuilder.results[%d] is a placeholder after the search" % idx)
+            break
+    if r["job_cells"]:
+        if r["job_index"] != [[i, i] for i in range(tot)]:
+            bad("jobs are not numbered 0..%d in order: %s" % (tot - 1, r["job_index"]))
+        for idx in range(tot):
+            if not cell_is(r["job_cells"][idx], idx, "job"):
+                break
+        # while running: slot k is filled exactly when job k has arrived
+        seen = set()
+        for step, kdone in enumerate(c["order"]):
+            seen.add(kdone)
+            if r["progress"][step] != [i in seen for i in range(tot)]:
+                bad("after %d arrivals the builder shows %s, arrived %s" % (step + 1, r["progress"][step], sorted(seen)))
+                break
+    if not r["others_same"]:
+        bad("a prior that is not a grid prior was replaced")
+    # reported physical cell limits are consistent with the cells fitted
+    for idx, smp in enumerate(r["samples"]):
+        stop = False
+        for j, nm in enumerate(dims):
+            lo_, hi_ = unhex(smp[nm][0]), unhex(smp[nm][1])
+            w = exp_cell[idx][nm][2]
+            pl, pu, pc = unhex(r["physical_lower"][idx][j]), unhex(r["physical_upper"][idx][j]), unhex(r["physical_centres"][idx][j])
+            if not (close(pl, lo_, w) and close(pu, hi_, w) and close(pc, (lo_ + hi_) / 2, w)):
+                bad("reported physical limits/centre of cell %d (%r, %r, %r) are not those of the cell fitted (%r, %r)"
+                    % (idx, pl, pu, pc, lo_, hi_))
+                stop = True
+                break
+        if stop:
+            break
+    # results.csv: one row per finished cell, columns found by header
+    hdr = r["csv_header"]
+    rows = sorted(r["csv"])
+    if [x[0] for x in rows] != list(range(tot)):
+        bad("results.csv does not list every cell once")
+    else:
+        if c.get("cores", 1) == 1 and [x[0] for x in r["csv"]] != c["order"]:
+            bad("results.csv rows are not in completion order")
+        for row in rows:
+            idx = row[0]
+            stop = False
+            for nm in dims:
+                # the column is headed by a name of the grid prior: <component>_<attribute> of any path holding it
+                cols = ["%s_centre" % nm] + ["%s_%s" % (x, attr) for x, e in c.get("extras", {}).items()
+                                             for attr, v in e.items() if v == "alias:" + nm]
+                found = [x for x in cols if x in hdr]
+                if len(found) != 1:
+                    bad("results.csv has no column for grid prior %s (header %s)" % (nm, hdr))
+                    stop = True
+                    break
+                if unhex(row[hdr.index(found[0])]) != unhex(r["samples"][idx][nm][0]):
+                    bad("results.csv row %d column %s does not describe cell %d" % (idx, found[0], idx))
+                    stop = True
+                    break
+            llc = hdr.index("log_likelihood_increase")
+            if not stop and abs(unhex(row[llc]) - exp_ll[idx]) > 1e-9:
+                bad("results.csv row %d carries the likelihood %r, cell %d has %r" % (idx, unhex(row[llc]), idx, exp_ll[idx]))
+                stop = True
+            if stop:
+                break
+    return fails
+
+
+def parse_label(label):
+    toks = label.split("_")
+    return {toks[i]: float(toks[i + 1]) for i in range(0, len(toks) - 1, 2)}
+
+
+def oracle_sens_run(c, r):
+    ns = c["ns"]
+    names = [p[0] for p in c["priors"]]        # creation order = prior id order = order of the grid dimensions
+    tot = 1
+    for n in ns:
+        tot *= n
+    if r["shape"] != ns or r["n"] != tot or r["n_perturb"] != tot or r["native_shape"] != ns:
+        return [("sensitivity result has shape %s and %d entries for steps %s" % (r["shape"], r["n"], ns), [])]
+    ls = c.get("limit_scale", 1)
+    ls = unhex(ls) if isinstance(ls, str) else float(ls)
+    pri = {nm: (unhex(a), unhex(b)) for nm, a, b in c["priors"]}
+    wts = [(nm, unhex(w)) for nm, w in c["weights"]]
+    exp = []
+    for idx in range(tot):
+        dg = digits_of(idx, ns)
+        cell = {}
+        for i, nm in enumerate(names):
+            lo, hi = pri[nm]
+            n = ns[i]
+            cu = (dg[i] + 0.5) / n
+            cell[nm] = {"centre": lo + cu * (hi - lo), "lo": lo + max(0.0, cu - ls / (2 * n)) * (hi - lo),
+                        "hi": lo + min(1.0, cu + ls / (2 * n)) * (hi - lo), "w": (hi - lo) / n}
+        exp.append(cell)
+    fails = []
+    order_classes = sens_classes(c)
+
+    def enc(idx):
+        return -sum(w * (exp[idx][nm]["centre"] if nm in exp[idx] else 1.0) for nm, w in wts)
+
+    # the k-th perturbed fit was made on cell k
+    for idx in range(tot):
+        stop = False
+        for nm in names:
+            e = exp[idx][nm]
+            got = (unhex(r["cells"][idx][nm][0]), unhex(r["cells"][idx][nm][1]))
+            if not (close(got[0], e["lo"], e["w"]) and close(got[1], e["hi"], e["w"])):
+                fails.append(("entry %d of perturb_samples was fitted on %s in %r, but cell %d is %r (completion order %s)"
+                              % (idx, nm, got, idx, (e["lo"], e["hi"]), c["order"]), []))
+                stop = True
+                break
+        if stop:
+            break
+    # the k-th base fit / perturbed fit saw the dataset simulated at the centre of cell k
+    for key in ("base_dataset", "perturb_dataset"):
+        for idx in range(tot):
+            if any(not close(unhex(r[key][idx][nm]), exp[idx][nm]["centre"], exp[idx][nm]["w"]) for nm in names):
+                fails.append(("entry %d of %s was simulated at %s, the centre of cell %d is %s (completion order %s)"
+                              % (idx, "samples" if key == "base_dataset" else "perturb_samples",
+                                 {nm: unhex(r[key][idx][nm]) for nm in names}, idx, {nm: exp[idx][nm]["centre"] for nm in names}, c["order"]), []))
+                break
+    for key, f in (("ll_base", lambda e: e), ("ll_perturbed", lambda e: 2 * e + 1), ("ll_diff", lambda e: e + 1), ("ev_diff", lambda e: e + 1)):
+        for idx in range(tot):
+            if abs(unhex(r[key][idx]) - f(enc(idx))) > 1e-9 * max(1.0, abs(enc(idx))):
+                fails.append(("%s[%d] = %r is not the value of cell %d (%r)" % (key, idx, unhex(r[key][idx]), idx, f(enc(idx))), []))
+                break
+    # results.csv: the value in the column headed p is the value of parameter p in that row's cell
+    hdr = r["csv_header"]
+    rows = sorted(r["csv"])
+    if [x[0] for x in rows] != list(range(tot)):
+        fails.append(("results.csv does not list every cell once", []))
+    else:
+        for row in rows:
+            idx = row[0]
+            stop = False
+            for nm in names:
+                if nm not in hdr:
+                    fails.append(("results.csv has no column %s" % nm, []))
+                    stop = True
+                    break
+                v = unhex(row[hdr.index(nm)])
+                e = exp[idx][nm]
+                if not close(v, e["centre"], e["w"]):
+                    cell_lo, cell_hi = unhex(r["cells"][idx][nm][0]), unhex(r["cells"][idx][nm][1])
+                    fails.append(("results.csv row %d reports %s = %r, but the cell fitted as entry %d has %s in [%r, %r] (centre %r)"
+                                  % (idx, nm, v, idx, nm, cell_lo, cell_hi, e["centre"]), order_classes))
+                    stop = True
+                    break
+            if stop:
+                break
+            llc = hdr.index("log_likelihood_increase")
+            if abs(unhex(row[llc]) - (enc(idx) + 1)) > 1e-9 * max(1.0, abs(enc(idx))):
+                fails.append(("results.csv row %d carries the likelihood increase of another cell" % idx, []))
+                break
+    # output folders: job k's label names the centre of cell k, parameter by parameter
+    if r["job_labels"]:
+        for idx, (number, label) in enumerate(r["job_labels"]):
+            if number != idx:
+                fails.append(("job %d carries number %d" % (idx, number), []))
+                break
+            vals = parse_label(label)
+            wrong = [nm for nm in names if nm not in vals or not close(vals[nm], exp[idx][nm]["centre"], exp[idx][nm]["w"])]
+            if wrong:
+                fails.append(("the folder of cell %d is labelled %s, but the cell's centre is %s"
+                              % (idx, label, {nm: exp[idx][nm]["centre"] for nm in names}), order_classes))
+                break
+        labels = [lab for _, lab in r["job_labels"]]
+        if r["base_label"] != labels or r["perturb_label"] != labels:
+            fails.append(("entries of samples / perturb_samples were not fitted in the folders of their cells", []))
+    # physical centres of the perturbed model for each fit
+    for nm in names:
+        for idx in range(tot):
+            e = exp[idx][nm]
+            if not close(unhex(r["centres_from"][nm][idx]), (e["lo"] + e["hi"]) / 2, e["w"]):
+                fails.append(("perturbed_physical_centres_list_from(perturb.%s)[%d] = %r, the prior fitted in cell %d is [%r, %r]"
+                              % (nm, idx, unhex(r["centres_from"][nm][idx]), idx, e["lo"], e["hi"]),
+                              [CLASS_SENS_CENTRES] if max(ns) >= 2 or ls < 1 else []))
+                break
+        else:
+            continue
+        break
+    return fails
+
+
+def oracle_simple(c, r):
     k = c["kind"]
     if k == "lists":
         L = [[unhex(x) for x in row] for row in r["lists"]]
@@ -239,74 +611,86 @@ def oracle(c, r):
             per = sorted(set(row[i] for row in cells))
             if len(per) != n:
                 return "dimension %d has %d distinct cells, expected %d" % (i, len(per), n)
-            if not close(per[0][0], lo) or not close(per[-1][1], hi):
+            w = (hi - lo) / n
+            if not close(per[0][0], lo, w) or not close(per[-1][1], hi, w):
                 return "cells of dimension %d cover [%r,%r] not [%r,%r]" % (i, per[0][0], per[-1][1], lo, hi)
             for a, b in zip(per, per[1:]):
-                if not close(a[1], b[0]):
+                if not close(a[1], b[0], w):
                     return "cells of dimension %d not contiguous: %r then %r" % (i, a, b)
             if any(not (a < b) for a, b in per):
                 return "empty cell"
+            # job k's cell in this dimension is the (digit i of k)-th cell, and make_physical_lists agrees
+            for idx, row in enumerate(cells):
+                dg = digits_of(idx, [n] * d)[i]
+                if not close(row[i][0], lo + dg / n * (hi - lo), w) or not close(row[i][1], lo + (dg + 1) / n * (hi - lo), w):
+                    return "cell %d dimension %d is %r, not cell number %d of the dimension" % (idx, i, row[i], dg)
+                if abs(unhex(r["physical"][idx][i]) - row[i][0]) > 1e-9 * w + 2e-14 + 8 * ulp(abs(row[i][0])):
+                    return "make_physical_lists entry %d is %r, cell starts at %r" % (idx, unhex(r["physical"][idx][i]), row[i][0])
         return None
     if k == "mappers":
         n, d = c["n"], len(c["grid"])
         ms = r["mappers"]
         if len(ms) != n ** d:
             return "%d models, expected %d" % (len(ms), n ** d)
+        orig = r["original"]
+        # paths holding a grid prior (the prior of <x>.centre and every alias of it)
+        gridpaths = {}
+        for nm in c["grid"]:
+            grp = orig[nm + ".centre"][3]
+            for path, v in orig.items():
+                if v[0] != "const" and v[3] == grp:
+                    gridpaths[path] = nm
+        pr = {x: (unhex(a), unhex(b)) for x, a, b in c["priors"]}
         for row in ms:
-            for nm, lo, hi in c["priors"]:
-                got = row[nm]
-                if nm not in c["grid"]:
-                    if not got[3] or unhex(got[0]) != unhex(lo) or unhex(got[1]) != unhex(hi):
-                        return "non-grid prior %s changed" % nm
-                elif got[2] != "UniformPrior":
-                    return "grid prior not uniform"
-        if any(pc != len(c["priors"]) for pc in r["prior_count"]):
+            if sorted(row) != sorted(orig):
+                return "model paths changed"
+            for path, v in orig.items():
+                got = row[path]
+                if path not in gridpaths:
+                    # all other parameters keep their priors (the very objects) and constants
+                    if v[0] == "const":
+                        if got != v:
+                            return "constant %s changed" % path
+                    elif got[:4] != v[:4] or not got[4]:
+                        return "non-grid prior %s changed (%s -> %s)" % (path, v, got)
+                else:
+                    if got[0] != "UniformPrior" or got[4]:
+                        return "grid prior at %s is not replaced by a uniform prior" % path
+                    if got[3] != v[3] or got[1:3] != row[gridpaths[path] + ".centre"][1:3]:
+                        return "paths sharing grid prior %s no longer share one prior" % gridpaths[path]
+        if any(pc != r["original_prior_count"] for pc in r["prior_count"]):
             return "prior count changed"
         # tiling of each grid dimension
         for nm in c["grid"]:
-            lo, hi = [(unhex(a), unhex(b)) for x, a, b in c["priors"] if x == nm][0]
-            per = sorted(set((unhex(row[nm][0]), unhex(row[nm][1])) for row in ms))
-            if len(per) != n or not close(per[0][0], lo) or not close(per[-1][1], hi):
+            lo, hi = pr[nm]
+            w = (hi - lo) / n
+            per = sorted(set((unhex(row[nm + ".centre"][1]), unhex(row[nm + ".centre"][2])) for row in ms))
+            if len(per) != n or not close(per[0][0], lo, w) or not close(per[-1][1], hi, w):
                 return "grid prior %s not tiled" % nm
-            if any(not close(a[1], b[0]) for a, b in zip(per, per[1:])):
+            if any(not close(a[1], b[0], w) for a, b in zip(per, per[1:])):
                 return "grid prior %s cells not contiguous" % nm
         return None
-    if k == "fit":
-        n, d = c["n"], len(c["grid"])
-        if r["shape"] != [n] * d:
-            return "shape %s expected %s" % (r["shape"], [n] * d)
-        if r["no_steps"] != n ** d or len(r["samples"]) != n ** d:
-            return "result has %d cells" % r["no_steps"]
-        # k-th sample belongs to k-th cell in row-major order over alphabetically sorted grid priors
-        names = sorted(c["grid"])
-        pr = {x: (unhex(a), unhex(b)) for x, a, b in c["priors"]}
-        for idx, smp in enumerate(r["samples"]):
-            rem = idx
-            for nm in reversed(names):
-                digit = rem % n
-                rem //= n
-                lo, hi = pr[nm]
-                w = hi - lo
-                exp_lo = lo + digit * (1 / n) * w
-                if not close(unhex(smp[nm][0]), exp_lo):
-                    return "sample %d is not the fit of cell %d (prior %s lower %r expected %r)" % (idx, idx, nm, unhex(smp[nm][0]), exp_lo)
-        # reported physical cell limits are consistent with the cells fitted
-        if r["native_shape"] != [n] * d:
-            return "log_likelihoods().native has shape %s" % r["native_shape"]
-        for idx, smp in enumerate(r["samples"]):
-            for j, nm in enumerate(names):
-                lo_, hi_ = unhex(smp[nm][0]), unhex(smp[nm][1])
-                pl, pu, pc = unhex(r["physical_lower"][idx][j]), unhex(r["physical_upper"][idx][j]), unhex(r["physical_centres"][idx][j])
-                if not (close(pl, lo_) and close(pu, hi_) and close(pc, (lo_ + hi_) / 2)):
-                    return ("reported physical limits/centre of cell %d (%r, %r, %r) are not those of the cell fitted (%r, %r)"
-                            % (idx, pl, pu, pc, lo_, hi_))
-        rows = sorted(r["csv"])
-        if [x[0] for x in rows] != list(range(n ** d)):
-            return "results.csv does not list every cell once"
-        for row in rows:
-            smp = r["samples"][row[0]]
-            if [unhex(x) for x in row[1:]] != [unhex(smp[nm][0]) for nm in names]:
-                return "results.csv row %d does not describe cell %d" % (row[0], row[0])
+    if k == "infinite":
+        return None if r["raised"] == "PriorException" else "a grid prior with an infinite limit was accepted (%s models)" % r.get("n_models")
+    if k == "sens_cells":
+        ls = c["limit_scale"]
+        ls = unhex(ls) if isinstance(ls, str) else float(ls)
+        ns = c["ns"]
+        tot = 1
+        for n in ns:
+            tot *= n
+        if len(r["limits"]) != tot:
+            return "%d sensitivity cells for steps %s" % (len(r["limits"]), ns)
+        for idx, lim in enumerate(r["limits"]):
+            dg = digits_of(idx, ns)
+            for i, n in enumerate(ns):
+                cu = (dg[i] + 0.5) / n
+                e = (max(0.0, cu - ls / (2 * n)), min(1.0, cu + ls / (2 * n)))
+                got = (unhex(lim[i][0]), unhex(lim[i][1]))
+                if not (close(got[0], e[0], 1 / n) and close(got[1], e[1], 1 / n)):
+                    return "sensitivity cell %d dimension %d has unit limits %r, expected %r (limit_scale %r)" % (idx, i, got, e, ls)
+                if ls == 1 and not (close(got[0], dg[i] / n, 1 / n) and close(got[1], (dg[i] + 1) / n, 1 / n)):
+                    return "sensitivity cell %d dimension %d is not [k/n, (k+1)/n]" % (idx, i)
         return None
     if k == "result":
         n, d = c["n"], c["d"]
@@ -316,7 +700,11 @@ def oracle(c, r):
     if k == "builder":
         arrived = dict((a, t) for a, t in c["arrivals"])
         exp = [arrived.get(i) for i in range(c["total"])]
-        return None if r["summaries"] == exp else "summaries not in job-number order"
+        if r["summaries"] != exp:
+            return "summaries not in job-number order (latest delivery of a job wins)"
+        if r["results"] != [None if t is None else [t, "path%d" % i] for i, t in enumerate(exp)]:
+            return "ResultBuilder.results does not pair job k's summary with job k's paths: %s" % r["results"]
+        return None
     if k == "sens_lists":
         tot = 1
         for n in c["ns"]:
@@ -330,91 +718,93 @@ def oracle(c, r):
             col = sorted(set(row[i] for row in L))
             if len(col) != n:
                 return "sensitivity dimension %d has %d distinct centres for %d steps" % (i, len(col), n)
-            if any(not close(v, (j + 0.5) / n) for j, v in enumerate(col)):
+            if any(not close(v, (j + 0.5) / n, 1 / n) for j, v in enumerate(col)):
                 return "sensitivity centres of dimension %d are not the cell centres" % i
         for idx, row in enumerate(L):
             rem = idx
             for i in range(len(c["ns"]) - 1, -1, -1):
                 n = c["ns"][i]
-                if not close(row[i], (rem % n + 0.5) / n):
+                if not close(row[i], (rem % n + 0.5) / n, 1 / n):
                     return "sensitivity entry %d is not in row-major order" % idx
                 rem //= n
-        return None
-    if k == "sens_run":
-        ns = c["ns"]
-        tot = 1
-        for n in ns:
-            tot *= n
-        if r["shape"] != ns or r["n"] != tot or r["n_perturb"] != tot:
-            return "sensitivity result has shape %s and %d entries for steps %s" % (r["shape"], r["n"], ns)
-        pri = [(unhex(a), unhex(b)) for a, b in c["priors"]]
-        for idx, cell in enumerate(r["cells"]):
-            rem = idx
-            for i in range(len(ns) - 1, -1, -1):
-                n = ns[i]
-                j = rem % n
-                rem //= n
-                lo, hi = pri[i]
-                exp = (lo + (j / n) * (hi - lo), lo + ((j + 1) / n) * (hi - lo))
-                got = (unhex(cell[i][0]), unhex(cell[i][1]))
-                if not (close(got[0], exp[0]) and close(got[1], exp[1])):
-                    return ("entry %d of the sensitivity result was fitted on %r in dimension %d, but cell %d is %r "
-                            "(completion order %s)" % (idx, got, i, idx, exp, c["order"]))
-        if sorted(r["csv_index"]) != list(range(tot)):
-            return "results.csv does not list every cell once"
         return None
     if k == "sens_sorted":
         return None if r["numbers"] == sorted(c["arrivals"]) else "sensitivity results not sorted by number"
     return "unknown kind"
 
 
-def coq_case(c, r):
+
+
+def cell_number(dataset, c):
+    """the cell a sensitivity result entry belongs to, identified by the dataset simulated for it"""
+    num = 0
+    for (nm, lo, hi), n in zip(c["priors"], c["ns"]):
+        lo, hi = unhex(lo), unhex(hi)
+        j = int(round((unhex(dataset[nm]) - lo) / (hi - lo) * n - 0.5))
+        num = num * n + j
+    return num
+
+
+def coq_cases(c, r):
+    """Coq terms of type `case` (abstract input + what the implementation returned)."""
     k = c["kind"]
     if k == "lists":
         if c.get("via") == "gridsearch":
-            return "CGridLists %s %s %s" % (cZ(c["n"]), cnat(c["d"]), cfl(r["lists"]))
-        return "CLists %s %s %s %s" % (cZ(c["n"]), cnat(c["d"]), cbool(c["centre"]), cfl(r["lists"]))
+            return ["CGridLists %s %s %s" % (cZ(c["n"]), cnat(c["d"]), cfl(r["lists"]))]
+        return ["CLists %s %s %s %s" % (cZ(c["n"]), cnat(c["d"]), cbool(c["centre"]), cfl(r["lists"]))]
     if k == "count":
-        return "CCount %s %s" % (cZ(c["n"]), cZ(r["count"]))
+        return ["CCount %s %s" % (cZ(c["n"]), cZ(r["count"]))]
     if k == "cells":
         pri = clist([cpair(cfloat(unhex(a)), cfloat(unhex(b))) for a, b in c["priors"]])
         exp = clist([clist([cpair(cfloat(unhex(a)), cfloat(unhex(b))) for a, b in row]) for row in r["cells"]])
-        return "CCells %s %s %s" % (cZ(c["n"]), pri, exp)
+        return ["CCells %s %s %s" % (cZ(c["n"]), pri, exp)]
     if k == "fit":
-        names = sorted(c["grid"])
+        names = r["sorted_names"]
+        if sorted(names) != sorted(c["grid"]):
+            return []
         pr = {x: (a, b) for x, a, b in c["priors"]}
         pri = clist([cpair(cfloat(unhex(pr[nm][0])), cfloat(unhex(pr[nm][1]))) for nm in names])
-        exp = clist([clist([cpair(cfloat(unhex(s[nm][0])), cfloat(unhex(s[nm][1]))) for nm in names]) for s in r["samples"]])
-        return "CCells %s %s %s" % (cZ(c["n"]), pri, exp)
+        out = []
+        for key in ("samples", "job_cells", "builder_paths"):
+            if r[key] and all(x is not None for x in r[key]):
+                exp = clist([clist([cpair(cfloat(unhex(s[nm][0])), cfloat(unhex(s[nm][1]))) for nm in names]) for s in r[key]])
+                out.append("CCells %s %s %s" % (cZ(c["n"]), pri, exp))
+        if r["progress"]:
+            out.append("CProgress %s %s %s" % (cnat(c["n"] ** len(names)), clist([cZ(x) for x in c["order"]]),
+                                               clist([clist([cbool(x) for x in row]) for row in r["progress"]])))
+        return out
     if k == "result":
         ns, nd = len(c["lower"]), len(c["lower"][0])
         base, ex = float(ns), 1 / nd
         pt = clist(["(%s, %s, %s)" % (cfloat(base), cfloat(ex), cfloat(base ** ex))])
-        return "CResult %s %s %s %s %s %s %s" % (
+        return ["CResult %s %s %s %s %s %s %s" % (
             pt, cfl(c["lower"]), clist([cZ(x) for x in r["shape"]]), cZ(r["side_length"]),
-            cfloat(unhex(r["step_size"])), cfl(r["upper"]), cfl(r["centres"]))
+            cfloat(unhex(r["step_size"])), cfl(r["upper"]), cfl(r["centres"]))]
     if k == "builder":
-        return "CBuilder %s %s %s" % (cnat(c["total"]), clist([cpair(cZ(a), cZ(t)) for a, t in c["arrivals"]]),
-                                      clist([copt(x, cZ) for x in r["summaries"]]))
+        res = []
+        for x in r["results"]:
+            ok = x is not None and isinstance(x[1], str) and x[1].startswith("path") and x[1][4:].isdigit()
+            res.append(cpair(cZ(x[0]), cZ(int(x[1][4:]))) if ok else None)
+        return ["CBuilder %s %s %s %s" % (cnat(c["total"]), clist([cpair(cZ(a), cZ(t)) for a, t in c["arrivals"]]),
+                                          clist([copt(x, cZ) for x in r["summaries"]]), clist([copt(x) for x in res]))]
     if k == "sens_lists":
-        return "CSensLists %s %s %s" % (clist([cZ(n) for n in c["ns"]]), cfl(r["lists"]), clist([cZ(x) for x in r["shape"]]))
+        return ["CSensLists %s %s %s" % (clist([cZ(n) for n in c["ns"]]), cfl(r["lists"]), clist([cZ(x) for x in r["shape"]]))]
+    if k == "sens_cells":
+        ls = c["limit_scale"]
+        ls = unhex(ls) if isinstance(ls, str) else float(ls)
+        exp = clist([clist([cpair(cfloat(unhex(a)), cfloat(unhex(b))) for a, b in row]) for row in r["limits"]])
+        return ["CSensCells %s %s %s" % (cfloat(ls), clist([cZ(n) for n in c["ns"]]), exp)]
     if k == "sens_sorted":
-        return "CSensSorted %s %s" % (clist([cZ(x) for x in c["arrivals"]]), clist([cZ(x) for x in r["numbers"]]))
+        return ["CSensSorted %s %s" % (clist([cZ(x) for x in c["arrivals"]]), clist([cZ(x) for x in r["numbers"]]))]
     if k == "sens_run":
-        # identify the cell each result entry was fitted on (by its limits), then compare the
-        # order with the model's sorted collection of the arrivals
-        ns = c["ns"]
-        pri = [(unhex(a), unhex(b)) for a, b in c["priors"]]
-        numbers = []
-        for cell in r["cells"]:
-            num = 0
-            for i, n in enumerate(ns):
-                lo, hi = pri[i]
-                j = int(round((unhex(cell[i][0]) - lo) / (hi - lo) * n))
-                num = num * n + j
-            numbers.append(num)
-        return "CSensSorted %s %s" % (clist([cZ(x) for x in c["order"]]), clist([cZ(x) for x in numbers]))
-    return None
+        # identify the cell each result entry belongs to (by the dataset simulated for it), then compare the
+        # order of BOTH result lists with the model's sorted collection of the arrivals
+        out = []
+        for key in ("base_dataset", "perturb_dataset"):
+            numbers = [cell_number(ds, c) for ds in r[key]]
+            out.append("CSensSorted %s %s" % (clist([cZ(x) for x in c["order"]]), clist([cZ(x) for x in numbers])))
+        return out
+    return []
 
 
 def nontrivial(c):
@@ -424,36 +814,64 @@ def nontrivial(c):
     if k == "count":
         return c["n"] >= 3
     if k in ("mappers", "fit"):
-        return c["n"] >= 2 and (k == "mappers" or c["order"] != sorted(c["order"]))
+        return c["n"] >= 2 and (k == "mappers" or c["order"] != sorted(c["order"]) or c.get("cores", 1) > 1)
     if k == "builder":
         return [a for a, _ in c["arrivals"]] != sorted(a for a, _ in c["arrivals"])
-    if k == "sens_lists":
+    if k in ("sens_lists", "sens_cells"):
         return max(c["ns"]) >= 2
     if k == "sens_sorted":
         return c["arrivals"] != sorted(c["arrivals"])
     if k == "sens_run":
-        return c["order"] != sorted(c["order"])
+        return c["order"] != sorted(c["order"]) or c.get("cores", 1) > 1
+    if k == "infinite":
+        return True
     return False
 
 
+def shape_sweep(infos):
+    """C16_shape assumes a d-th root accurate to 1/2; in binary64 that is checked here exhaustively for the
+    source expression of GridSearchResult.shape / side_length themselves, on d <= 6, n^d <= 10^6."""
+    from types import SimpleNamespace
+    bad, count = [], 0
+    for name in ("gsr_shape_elem", "gsr_side_length"):
+        code = compile(__import__("ast").Expression(infos[name]["node"]), "<%s>" % name, "eval")
+        for d in range(1, 7):
+            n = 1
+            while n ** d <= 10 ** 6:
+                env = {"self": SimpleNamespace(no_steps=n ** d, no_dimensions=d)}
+                v = eval(code, {"__builtins__": {"round": round, "int": int}}, env)
+                count += 1
+                if v != n and len(bad) < 5:
+                    bad.append((name, n, d, v))
+                n += 1
+    return bad, count
+
+
 def run(ctx):
-    ctx.rule = ("cases are abstract grid-search inputs (kinds: lattice, count, cells, model mappers, real fits with a permuted "
-                "completion order through GridSearch._fit, GridSearchResult accessors, ResultBuilder arrival orders, sensitivity "
-                "lattices/sorting); a case is non-trivial when n >= 2 (count: n >= 3) and, for ordered kinds, the completion order "
-                "differs from job order; distinct = distinct abstract input")
+    ctx.rule = ("cases are abstract grid-search inputs (kinds: lattice, count, cells, infinite limits, model mappers with non-uniform / "
+                "shared / aliased other parameters, real fits through GridSearch.fit/_fit with a permuted completion order and a "
+                "likelihood that is a function of the cell, GridSearchResult accessors, ResultBuilder arrival orders with re-delivery, "
+                "sensitivity lattices / unit cells with limit_scale / sorting / real Sensitivity.run with perturb priors created out "
+                "of path order); a case is non-trivial when n >= 2 (count: n >= 3) and, for ordered kinds, the completion order "
+                "differs from job order (or is left to the real process pool); distinct = distinct abstract input")
     ctx.trusted = [
         "Coq 8.16.1 kernel incl. vm_compute; primitive floats (PrimFloat, Uint63) are kernel primitives",
         "harness/vcheck/pyexpr2coq.py (leaf-formula translator, fail-closed) regenerating coq/C16/Gen.v from /repo on every run",
         "correspondence harness c16.py / impl/c16_impl.py; Python float.hex, float.__pow__ (oracle table for **(1/d))",
-        "modelled not verified: UniformPrior construction, model.mapper_from_partial_prior_arguments, sort_priors_alphabetically, "
-        "MockSearch fits, Process pool scheduling (completion order is steered by a permuting process class)",
+        "modelled not verified: UniformPrior construction and value_for, model.mapper_from_partial_prior_arguments, "
+        "sort_priors_alphabetically (its order of the grid dimensions is taken as given), the mock search (likelihood evaluated at "
+        "the prior medians), Process pool scheduling (completion order is steered by a permuting job runner; two thorough-tier "
+        "cases use the real pool)",
     ]
     ctx.assumptions = [
-        "C16_count_float is a finite sweep 1<=n<=200000 over the generated binary64 formula (bound stated in the theorem)",
-        "C16_shape assumes the d-th root is computed to within 1/2 of n (libm pow is an oracle)",
-        "tiling theorems are over exact rationals; binary64 cells are compared bit-for-bit by correspondence and to 1e-9 by the oracle",
+        "C16_count_float is a finite sweep 1<=n<=131072 over the generated binary64 formula (bound stated in the theorem)",
+        "C16_shape assumes the d-th root is computed to within 1/2 of n (libm pow is an oracle); for binary64 the source expression "
+        "is swept exhaustively by the harness on d<=6, n^d<=10^6 (obligation sweep:shape-float)",
+        "tiling theorems are over exact rationals; binary64 cells are compared bit-for-bit by correspondence and by the oracle to "
+        "1e-9 of the CELL width plus 8 ulp",
     ]
     # 1. translator
+    infos = None
     try:
         infos = regenerate()
         ctx.translated = {k: {"source": v["source"], "line": v["line"]} for k, v in infos.items()}
@@ -462,6 +880,12 @@ def run(ctx):
     except T.TranslationError as e:
         ctx.obligation("translator:Gen.v", "translator", False, str(e))
         translated = False
+    if infos:
+        bad, count = shape_sweep(infos)
+        ctx.obligation("sweep:shape-float", "sweep", not bad, "%d (n, d) pairs" % count if not bad else "round(N**(1/d)) != n for %s" % bad)
+        if bad:
+            name, n, d, v = bad[0]
+            ctx.failure("oracle", "a %d-dimensional grid with %d steps reports side %d" % (d, n, v), {"kind": "shape", "n": n, "d": d})
     # 2. proofs
     built = ctx.build() if translated else False
     # 3. cases
@@ -471,26 +895,39 @@ def run(ctx):
         rp = json.load(open(ctx.replay))
         if rp.get("case"):
             cases = [rp["case"]]
-    res = common.run_impl("c16_impl", {"cases": cases}, timeout=1500)
-    if "__error__" in res:
-        ctx.obligation("impl-driver", "harness", False, res["__error__"][-800:])
-        return
-    results = res["results"]
-    coq_cases, coq_idx = [], []
+    slow = [i for i, c in enumerate(cases) if c["kind"] in ("fit", "sens_run")]
+    fast = [i for i, c in enumerate(cases) if c["kind"] not in ("fit", "sens_run")]
+    groups = [fast] + [slow[j::6] for j in range(6)]
+    groups = [g for g in groups if g]
+    outs = common.run_impl_parallel("c16_impl", [{"cases": [cases[i] for i in g]} for g in groups], timeout=1500)
+    results = [None] * len(cases)
+    for g, res in zip(groups, outs):
+        if "__error__" in res:
+            ctx.obligation("impl-driver", "harness", False, res["__error__"][-800:])
+            return
+        for i, r in zip(g, res["results"]):
+            results[i] = r
+    coq_terms, coq_idx = [], []
     for i, (c, r) in enumerate(zip(cases, results)):
         ctx.count_case({k: v for k, v in c.items() if k != "idx"}, nontrivial(c), c["kind"])
+        if c["kind"] == "sens_run":
+            ctx.hist("sens_run.created_in_path_order", not sens_classes(c))
+            ctx.hist("sens_run.limit_scale", str(c["limit_scale"]))
+        if c["kind"] in ("fit", "mappers"):
+            ctx.hist("%s.extras" % c["kind"], ",".join(sorted({v.split(":")[0] for e in c["extras"].values() for v in e.values()})) or "const")
         ctx.oracle["cases"] += 1
         if "exc" in r:
             ctx.oracle["failures"] += 1
             ctx.failure("oracle", "implementation raised %s: %s" % (r["exc"], r.get("msg")), c, impl=r)
             continue
-        msg = oracle(c, r["ok"])
-        if msg:
+        fails = oracle_all(c, r["ok"])
+        if fails:
             ctx.oracle["failures"] += 1
-            ctx.failure("oracle", msg, c, impl=r["ok"])
-        cc = coq_case(c, r["ok"])
-        if cc:
-            coq_cases.append(cc)
+        small = {k: v for k, v in r["ok"].items() if len(str(v)) < 1500}
+        for msg, classes in fails:
+            ctx.failure("oracle", msg, c, classes=classes, impl=small)
+        for cc in coq_cases(c, r["ok"]):
+            coq_terms.append(cc)
             coq_idx.append(i)
         if i % 37 == 0:
             small = dict(c)
@@ -499,13 +936,13 @@ def run(ctx):
     # 4. correspondence inside Coq (needs Gen.vo/Model.vo; they build even when a proof is broken)
     if os.path.exists(os.path.join(common.COQ, "C16", "Model.vo")):
         hdr = ctx.header(["Common.PyFloat", "Common.Lists", "Gen", "Model"])
-        bad, log = ctx.eval_cases(hdr, "case", "check_case", coq_cases, shard=60)
+        bad, log = ctx.eval_cases(hdr, "case", "check_case", coq_terms, shard=60)
         if bad:
             for b in bad[:5]:
                 i = coq_idx[b]
-                ctx.failure("correspondence", "model and implementation disagree on a %s case" % cases[i]["kind"],
-                            cases[i], impl=results[i].get("ok"), broken={"kind": "correspondence", "name": "C16.check_case"},
-                            found_input=oracle(cases[i], results[i]["ok"]) is not None)
+                ctx.failure("correspondence", "model and implementation disagree on a %s case (%s)" % (cases[i]["kind"], coq_terms[b].split(" ")[0]),
+                            cases[i], impl=None, broken={"kind": "correspondence", "name": "C16.check_case"},
+                            found_input=bool(oracle_all(cases[i], results[i]["ok"])))
     else:
         ctx.obligation("correspondence:cases", "correspondence", False, "Model.vo not built")
 
